@@ -3,6 +3,7 @@
    tokens (`parent,prev,comp,cond,str,tag,extra,dirs`); `next` / `children` are derived
    the way configparser.y links them (`Cond.link`). -/
 import LtVerif.Model.Cond
+import LtVerif.Model.CondSimplify
 import LtVerif.Proofs.Cond
 namespace Driver
 open LtVerif LtVerif.B LtVerif.Cond
@@ -248,6 +249,13 @@ end CondP
 
 open CondP in
 def condLine : List String → String
+  | ["x", hx] =>
+    -- configparser_simplify_regex() on the string of a `=~` condition: stored (cond, string)
+    match ofHex hx with
+    | none => "bad-op"
+    | some b =>
+      let cs := simplifyRegex b
+      condNm cs.1 ++ " " ++ toHex cs.2
   | "srv" :: _cfg :: rest =>
     let nodeToks := rest.takeWhile (· ≠ "/")
     let reqToks := (rest.dropWhile (· ≠ "/")).drop 1
